@@ -301,6 +301,19 @@ AsQ(puts, ids, gone, final, contains, reads, gb, len) ==
     /\ \A j \in 1..Len(reads) : reads[j].ok /\ reads[j].d = reads[j].want
     /\ gb.ok /\ gb.items = SelectSeq(puts, LAMBDA p : p.id \notin gone)      \* [id, d] in the order asked
     /\ len = Len(puts) - Cardinality(gone)
+(* the same for the large "duel" rounds (batchers storing thousands of records back to back     *)
+(* against tasks storing single records; nothing removed), logged compactly: a record is the      *)
+(* 4-byte payload read as an integer v (unique per round; -1 = not these 4 bytes / not found):    *)
+(* ids[i], vs[i] = id and value of accepted record i, fv[i] = what get(ids[i]) holds at           *)
+(* quiescence, gbv = get_batch(ids), rv / rw = value read / value expected while running          *)
+AsQuiesceCompact(ids, vs, fv, gbok, gbv, rv, rw, len) ==
+    /\ Len(vs) = Len(ids) /\ Len(fv) = Len(ids)
+    /\ Cardinality(Rng(ids)) = Len(ids)                       \* no id handed out twice
+    /\ fv = vs                                               \* every accepted record holds its own bytes
+    /\ gbok /\ gbv = vs
+    /\ rv = rw
+    /\ len = Len(ids)
+
 AsQuiesce(puts, removed, final, contains, reads, gb, len) ==
     AsQ(puts, { puts[i].id : i \in 1..Len(puts) }, Rng(removed), final, contains, reads, gb, len)
 =============================================================================
